@@ -184,7 +184,7 @@ def from_py_v(T, x, expect):
 # random cases beyond the model bounds (TLA representation)
 
 BASIC = 'ybnqiuxtdsog'
-STRS = ['', 'a', 'hello', 'é€', '😀b', 'x' * 40, 'tab\tnl\n', 'ÿĀ￿']
+STRS = ['', 'a', 'hello', 'é€', '😀b', 'x' * 40, 'tab\tnl\n', 'ÿĀ￿', '\ufeff', '\ufeffbom first', 'in\ufeffside']
 PATHS = ['/', '/a', '/a/b0', '/org/freedesktop/DBus', '/_/x_1']
 SIGS = ['', 'i', 'a{sv}', '(ii)', 'aay', 'a(ss)v']
 
